@@ -1,5 +1,8 @@
 import ZenonVerif.Model.Num
 import ZenonVerif.Model.Pow
 import ZenonVerif.Model.Rpc
+import ZenonVerif.Model.Consensus
 import ZenonVerif.Props.C12
 import ZenonVerif.Props.C18
+import ZenonVerif.Lemmas.Consensus
+import ZenonVerif.Props.C05
